@@ -81,9 +81,9 @@ CLAIMED["C14"] = ("Proof (deductive, arbitrary input octets) for the decoding pr
   "Trusted: govc, go/ssa, SMT solvers; log formatting helpers perBitLog/perRawBitLog (reflect) assumed effect-free.",
   "DESIGN.md §4 C14")
 
-CLAIMED["C03"] = ("Proof (deductive, any prefix, all values) of the general contracts of the APER encoding primitives putBitString, putBitsValue, appendAlignBits, appendConstraintValue, appendLength, appendBool, appendEnumerated, appendInteger: "
+CLAIMED["C03"] = ("Proof (deductive, any prefix, all values) of the general contracts of the APER encoding primitives putBitString, putBitsValue, appendAlignBits, appendConstraintValue, appendLength, appendBool, appendEnumerated, appendInteger, appendChoiceIndex, appendOctetString, appendBitString: "
   "what they refuse (value not fitting its width, range above 64K, INTEGER/ENUMERATED outside a non-extensible constraint: refused instead of put on the wire), the cursor invariant, that nothing before the last octet is read or changed, and the number of bits/octets each encoding occupies per X.691 10.5.7/10.9. "
-  "BOUNDED stand-ins (native runs of the real functions, labelled bounded, not proofs) compare the bits written with a reference encoder written from X.691 (/verif/spec/per/ref.go): bit fields (all widths x alignments), constrained whole numbers, length determinants 0..16383, INTEGER under 17 constraint tuples, OCTET STRING and BIT STRING under the NGAP constraint shapes.",
+  "BOUNDED stand-ins (native runs of the real functions, labelled bounded, not proofs) compare the bits written with a reference encoder written from X.691 (/verif/spec/per/ref.go): the reflection-driven traversal itself on synthetic ASN.1 types, one per construct (extensible SEQUENCE with OPTIONAL components, SEQUENCE OF under seven size constraints with up to 300 elements, CHOICE, information object fields with open types, a PrintableString behind a wrapper type), in both directions; bit fields (all widths x alignments), constrained whole numbers, length determinants 0..16383, INTEGER under 17 constraint tuples, OCTET STRING and BIT STRING under the NGAP constraint shapes.",
   "NOT covered: the reflection-driven traversal (makeField, appendOpenType, Marshal*, ngap.Encoder) and the agreement of the ngapType struct tags with the ASN.1 of TS 38.413 are outside the executor's subset and have no offline oracle; fragmented lengths (>= 16384) are not checked. "
   "The value written by each primitive is established by the bounded stand-ins only (the symbolic proof of the bit-level postcondition timed out; see DESIGN.md). Trusted: govc, go/ssa, SMT solvers, the reference encoder.",
   "DESIGN.md §4 C03")
